@@ -782,6 +782,8 @@ def normalise(plan):
         plan["n_plates"] = min(plan["n_plates"], 4)
         plan["n_chains"], plan["n_chunks"] = 2, min(plan["n_chunks"], 2)
     plan["n_plates"] = max(plan["n_plates"], 2)
+    if plan.get("enumerate_single") and (plan.get("real") or plan["n_plates"] > 5):
+        plan["enumerate_single"] = False  # exhaustive single-crash enumeration only for small MODEL configurations
     if plan["mode"] == "prospective":
         # a batch can only be filled from unobserved plates (the script has no notion of running out)
         plan["n_plates"] = max(plan["n_plates"], plan["batch_size"] + 1)
